@@ -26,6 +26,9 @@ pub enum Op {
     TakeOutput,
     /// the caller re-configures the opcode range through the public fields `min_opcodes` / `max_opcodes`
     SetRange(usize, usize),
+    /// only one of the two public fields is written
+    SetMin(usize),
+    SetMax(usize),
 }
 
 #[derive(Clone, Debug, Serialize, Deserialize)]
@@ -46,6 +49,7 @@ pub fn seq_strategy(p: &Profile, maxlen: usize) -> BoxedStrategy<SeqCase> {
         2 => Just(Op::Reset),
         1 => Just(Op::TakeOutput),
         1 => prop_oneof![(0usize..40, 0usize..40), Just((60usize, 300usize)), (300usize..900).prop_map(|a| (a, a + 50))].prop_map(|(a, b)| Op::SetRange(a, b)),
+        1 => prop_oneof![(0usize..60).prop_map(Op::SetMin), (0usize..60).prop_map(Op::SetMax), (200usize..500).prop_map(Op::SetMin)],
     ];
     let last = prop_oneof![1 => Just(Op::Generate), 1 => case::bytes_entropy().prop_map(Op::FromBytes)];
     (case::gencase(p), any::<u64>(), proptest::collection::vec(op, 0..maxlen), last, proptest::bool::weighted(0.25))
@@ -64,7 +68,7 @@ fn entropy_of(base: &GenCase, op: &Op) -> Option<Entropy> {
     match op {
         Op::Generate => Some(base.entropy.clone()),
         Op::FromBytes(b) => Some(Entropy::Bytes(b.clone())),
-        Op::Reset | Op::TakeOutput | Op::SetRange(..) => None,
+        Op::Reset | Op::TakeOutput | Op::SetRange(..) | Op::SetMin(_) | Op::SetMax(_) => None,
     }
 }
 
@@ -101,6 +105,17 @@ pub fn check_c08(ctx: &Ctx, sc: &SeqCase, st: &mut Stats) -> Result<(), Fail> {
                     g.min_opcodes = *a;
                     g.max_opcodes = *b;
                     range = Some((*a, *b));
+                }
+                Op::SetMin(a) => {
+                    // the caller's configuration: what it wrote last into each field (not what the generator holds)
+                    let cur = range.unwrap_or((sc.base.min_opcodes, sc.base.max_opcodes));
+                    g.min_opcodes = *a;
+                    range = Some((*a, cur.1));
+                }
+                Op::SetMax(b) => {
+                    let cur = range.unwrap_or((sc.base.min_opcodes, sc.base.max_opcodes));
+                    g.max_opcodes = *b;
+                    range = Some((cur.0, *b));
                 }
                 _ => {
                     g.reset();
@@ -187,7 +202,7 @@ pub fn check_c08(ctx: &Ctx, sc: &SeqCase, st: &mut Stats) -> Result<(), Fail> {
         st.label("has >= 2 generation calls without reset in between");
         st.nontrivial(last_digest ^ util::digest_str(&format!("{:?}", sc.ops.len())));
         st.sample(|| {
-            json!({"config": sc.base.brief(), "ops": sc.ops.iter().map(|o| match o { Op::Generate => "generate".to_string(), Op::Reset => "reset".to_string(), Op::TakeOutput => "take(output)".to_string(), Op::SetRange(a, b) => format!("set_range({},{})", a, b), Op::FromBytes(b) => format!("from_bytes[{}]", b.len()) }).collect::<Vec<_>>()})
+            json!({"config": sc.base.brief(), "ops": sc.ops.iter().map(|o| match o { Op::Generate => "generate".to_string(), Op::Reset => "reset".to_string(), Op::TakeOutput => "take(output)".to_string(), Op::SetRange(a, b) => format!("set_range({},{})", a, b), Op::SetMin(a) => format!("min_opcodes={}", a), Op::SetMax(b) => format!("max_opcodes={}", b), Op::FromBytes(b) => format!("from_bytes[{}]", b.len()) }).collect::<Vec<_>>()})
         });
     }
     if sc.ops.iter().any(|o| matches!(o, Op::Reset)) {
@@ -312,12 +327,15 @@ fn c14_measure(sc: &SeqCase) -> (i64, i64, bool, bool, u64) {
                 None if matches!(op, Op::TakeOutput) => {
                     let _ = std::mem::take(&mut g.output);
                 }
-                None if matches!(op, Op::SetRange(..)) => {
-                    if let Op::SetRange(a, b) = op {
+                None if matches!(op, Op::SetRange(..) | Op::SetMin(_) | Op::SetMax(_)) => match op {
+                    Op::SetRange(a, b) => {
                         g.min_opcodes = *a;
                         g.max_opcodes = *b;
                     }
-                }
+                    Op::SetMin(a) => g.min_opcodes = *a,
+                    Op::SetMax(b) => g.max_opcodes = *b,
+                    _ => {}
+                },
                 None => g.reset(),
                 Some(e) => match call_gen(&mut g, &e) {
                     Ok(o) => {
